@@ -159,10 +159,22 @@ func (in *Interp) vf(fn *ssa.Function, args []Value) Value {
 		n, _ := constInt(args[1].(*Term))
 		in.res.Bounds[str(0)] = n
 		return nil
+	case "vfSmallLen":
+		n, _ := constInt(args[0].(*Term))
+		in.smallLen = n
+		in.res.Bounds["elements-per-slice"] = n
+		return nil
+	case "vfSeqCap":
+		n, _ := constInt(args[0].(*Term))
+		in.seqCap = n
+		return nil
 	case "vfLoopBound":
 		n, _ := constInt(args[0].(*Term))
 		in.loopBound = n
 		in.res.Bounds["loop-unwinding"] = n
+		return nil
+	case "vfIgnorePanics":
+		in.ignorePanics = args[0].(*Term).IsTrue()
 		return nil
 	case "vfExpectPanic":
 		in.expectPanic = true
@@ -185,6 +197,16 @@ func (in *Interp) vf(fn *ssa.Function, args []Value) Value {
 			s = IArith("+", s, a)
 		}
 		return s
+	case "vfDeepEqual":
+		return in.deepEq(args[0], args[1], 0)
+	case "vfAssertDeepEqual":
+		// proving equality of sequences at one fresh (universally quantified) index
+		// is equivalent to proving it at every index
+		in.skolemSeq = true
+		c := in.deepEq(args[0], args[1], 0)
+		in.skolemSeq = false
+		in.assertHolds(c, str(2))
+		return nil
 	case "vfRepeat":
 		return IX(1)
 	case "vfIsErrorf":
@@ -223,3 +245,180 @@ func isVF(fn *ssa.Function) bool {
 }
 
 var _ = types.Typ
+
+// deepEq builds the term "a and b are structurally equal" (reflect.DeepEqual
+// on the shapes harnesses compare: packages and their fields).
+func (in *Interp) deepEq(a, b Value, depth int) *Term {
+	if depth > 12 {
+		in.unsupported("vfDeepEqual: structure too deep")
+	}
+	switch x := a.(type) {
+	case *Term:
+		y, ok := b.(*Term)
+		if !ok {
+			return Bool(false)
+		}
+		return Eq(x, y)
+	case *IfaceV:
+		y, _ := b.(*IfaceV)
+		if x == nil || y == nil {
+			return Bool(x == nil && y == nil)
+		}
+		if !types.Identical(x.typ, y.typ) {
+			return Bool(false)
+		}
+		return in.deepEq(x.val, y.val, depth+1)
+	case *PtrV:
+		y, ok := b.(*PtrV)
+		if !ok {
+			return Bool(false)
+		}
+		xn, yn := x.cell == nil && x.arr == nil, y.cell == nil && y.arr == nil
+		if xn || yn {
+			return Bool(xn && yn)
+		}
+		if x.cell != nil && y.cell != nil {
+			if x.cell == y.cell {
+				return Bool(true)
+			}
+			return in.deepEq(x.cell.v, y.cell.v, depth+1)
+		}
+		return Eq(in.load(x).(*Term), in.load(y).(*Term))
+	case *StructObj:
+		y, ok := b.(*StructObj)
+		if !ok || len(x.f) != len(y.f) {
+			return Bool(false)
+		}
+		r := Bool(true)
+		for i := range x.f {
+			r = And(r, in.deepEq(x.f[i].v, y.f[i].v, depth+1))
+		}
+		return r
+	case *StrV:
+		y, ok := b.(*StrV)
+		if !ok {
+			return Bool(false)
+		}
+		return in.seqEq(x.node, x.off, x.len, y.node, y.off, y.len)
+	case *SliceV:
+		y, ok := b.(*SliceV)
+		if !ok {
+			return Bool(false)
+		}
+		// reflect.DeepEqual distinguishes nil and empty slices
+		if x.isNil != y.isNil {
+			return Bool(false)
+		}
+		return in.seqEq(x.obj.node, x.off, x.len, y.obj.node, y.off, y.len)
+	case *ArrObj:
+		y, ok := b.(*ArrObj)
+		if !ok {
+			return Bool(false)
+		}
+		return Bool(x.node == y.node)
+	case *SliceG:
+		y, ok := b.(*SliceG)
+		if !ok || x.len != y.len || x.isNil != y.isNil {
+			return Bool(false)
+		}
+		r := Bool(true)
+		for i := 0; i < x.len; i++ {
+			r = And(r, in.deepEq((*x.cells)[x.off+i].v, (*y.cells)[y.off+i].v, depth+1))
+		}
+		return r
+	case *MapV:
+		y, _ := b.(*MapV)
+		if x == nil || y == nil {
+			return Bool(x == nil && y == nil)
+		}
+		if len(x.e) != len(y.e) {
+			return Bool(false)
+		}
+		r := Bool(true)
+		for _, e := range x.e {
+			found := Bool(false)
+			for _, f := range y.e {
+				found = Or(found, And(in.valEq(e.k, f.k), in.deepEq(e.v, f.v, depth+1)))
+			}
+			r = And(r, found)
+		}
+		return r
+	case *FuncV:
+		y, _ := b.(*FuncV)
+		return Bool(x == nil && y == nil)
+	case *ChanV:
+		y, _ := b.(*ChanV)
+		return Bool(x == y)
+	case *BufObj:
+		y, ok := b.(*BufObj)
+		if !ok {
+			return Bool(false)
+		}
+		return in.seqEq(x.s.obj.node, IArith("+", x.s.off, x.rdOff()), IArith("-", x.s.len, x.rdOff()), y.s.obj.node, IArith("+", y.s.off, y.rdOff()), IArith("-", y.s.len, y.rdOff()))
+	case *BigObj:
+		y, ok := b.(*BigObj)
+		return And(Bool(ok), Eq(x.v, y.v))
+	case *TimeObj:
+		y, ok := b.(*TimeObj)
+		if !ok {
+			return Bool(false)
+		}
+		return And(Eq(x.days, y.days), Eq(x.nanos, y.nanos))
+	case *OpaqueV:
+		y, ok := b.(*OpaqueV)
+		return Bool(ok && x.tag == y.tag)
+	case TupleV:
+		y, ok := b.(TupleV)
+		if !ok || len(x) != len(y) {
+			return Bool(false)
+		}
+		r := Bool(true)
+		for i := range x {
+			r = And(r, in.deepEq(x[i], y[i], depth+1))
+		}
+		return r
+	case nil:
+		return Bool(b == nil)
+	}
+	in.unsupported("vfDeepEqual on %T", a)
+	return nil
+}
+
+// seqEq: two sequences are equal: same length and same elements. Symbolic
+// lengths are handled up to their statically known upper bound.
+func (in *Interp) seqEq(na *ArrNode, oa, la *Term, nb *ArrNode, ob, lb *Term) *Term {
+	r := Eq(la, lb)
+	if r.IsFalse() {
+		return r
+	}
+	if in.skolemSeq && !(la.IsConst() && la.Int() <= 8) {
+		in.fresh++
+		k := IntVar(fmt.Sprintf("sk!%d", in.fresh))
+		in.assume(ICmp("<=", IntC(0), k))
+		eq := Eq(na.Read(IArith("+", oa, k)), nb.Read(IArith("+", ob, k)))
+		return And(r, Implies(ICmp("<", k, la), eq))
+	}
+	max := int64(-1)
+	for _, l := range []*Term{la, lb} {
+		if _, hi := l.bounds(); hi != nil && hi.IsInt64() && (max < 0 || hi.Int64() < max) {
+			max = hi.Int64()
+		}
+	}
+	if max < 0 || max > int64(in.seqCap) {
+		// no small static bound: the harness bound on compared sequences becomes an obligation
+		max = int64(in.seqCap)
+		if !in.guard(ICmp("<=", la, IX(max))) {
+			in.end("bound", "vfDeepEqual: sequence longer than the harness bound")
+		}
+	}
+	for i := int64(0); i < max; i++ {
+		k := IX(i)
+		eq := Eq(na.Read(IArith("+", oa, k)), nb.Read(IArith("+", ob, k)))
+		if c := ICmp("<", k, la); c.IsTrue() {
+			r = And(r, eq)
+		} else {
+			r = And(r, Implies(c, eq))
+		}
+	}
+	return r
+}
